@@ -279,6 +279,7 @@ pub fn exec_history<'a, B: Robdd<'a>>(ctx: &mut Ctx, cfg: &HistCfg, b: &'a B, op
             let mut rep: HashMap<Tt, BddPtr> = HashMap::new();
             let mut known_nodes: HashMap<usize, &BddNode> = HashMap::new();
             let mut nvars = cfg.n0;
+            let hash_map = rsdd::repr::create_semantic_hash_map::<{ rsdd::constants::primes::U64_LARGEST }>(n);
             macro_rules! arg {
                 ($a:expr) => {{
                     let (p, t) = &pool[$a.0];
@@ -423,6 +424,19 @@ pub fn exec_history<'a, B: Robdd<'a>>(ctx: &mut Ctx, cfg: &HistCfg, b: &'a B, op
                     }
                 }
                 if checks.canon {
+                    // histories may interleave queries that annotate nodes (cached hash,
+                    // scratch traffic); canonicity must survive them
+                    match step % 5 {
+                        1 => {
+                            let _ = got.cached_semantic_hash(b.order_ref(), &hash_map);
+                            ctx.count("annotating_queries", 1);
+                        }
+                        3 => {
+                            let _ = got.count_nodes();
+                            ctx.count("annotating_queries", 1);
+                        }
+                        _ => {}
+                    }
                     check_canon(ctx, cfg, b, got, &got_tt, &mut rep, &mut known_nodes, step, op);
                 }
                 if checks.record_canon {
